@@ -24,7 +24,7 @@ func init() {
 	Register(&Scenario{
 		Name:  "relay",
 		Props: []string{"C11"},
-		Plan:  simple(40000, 600000),
+		Plan:  simple(40000, 2400000),
 		Run:   runRelay,
 		Real:  []string{"relay gateway: codec framer, dispatcher / IDecode, IEncode", "receiver: codec framer, IDecode", "IEncode of the sending node for canonical images"},
 		Stub:  []string{"model peer (conformant and non-canonical images)", "two byte-preserving links with seeded cuts", "emission-order chooser for optional parameters"},
